@@ -76,4 +76,40 @@ func C11Union(a, b map[string]bool) bool {
 	return added
 }
 `,
+	"c17.go": `package zzveriffixture
+
+import "sort"
+
+var c17cache = map[string]int{}
+var c17tab = [4]int{}
+var c17names = []string{"b", "a"}
+
+// must be flagged: lazy cache in a package-level map
+func C17Lazy(s string) int {
+	if v, ok := c17cache[s]; ok {
+		return v
+	}
+	c17cache[s] = len(s)
+	return len(s)
+}
+
+// must be flagged (in c17bump): write through a pointer bound to a global
+func C17Indirect(i int) { c17bump(&c17tab, i) }
+
+func c17bump(p *[4]int, i int) { p[i]++ }
+
+// must not be flagged
+func C17ReadOnly(i int) int { return c17tab[i] }
+
+// must be flagged: external function that writes through its argument
+func C17Sort() { sort.Strings(c17names) }
+
+// must not be flagged: local copy
+func C17Local() []string {
+	l := make([]string, len(c17names))
+	copy(l, c17names)
+	sort.Strings(l)
+	return l
+}
+`,
 }
